@@ -105,7 +105,8 @@ def selftest(ctx):
 
 # ------------------------------------------------------------------ generator
 _AWK_ATOMS = ["C1'", "O\"2", "N'A\"", "1HB", "HB''", "CA", "C", "N", "O", "X_1", "C#", "O;", "$A", "[B]", "H.", "?Q"]
-_AWK_RES = ["LG1", "Q'Z", "1AB", "A\"B", "Z_9", "UNK5X"]
+_AWK_RES = ["LG1", "Q'Z", "1AB", "A\"B", "Z_9", "UNK5X", "LG", "LG11"]
+_COLLIDE_ATOMS = ["C1", "1H", "C11", "H", "C", "11H", "1C", "1", "H1", "C1H"]
 _CHAINS = ["A", "B", "AA", "a1", "X'y", "Q\"", "1", "ZZZZ"]
 _ELEMS = ["C", "N", "O", "H", "S", "FE", "ZN", "SE"]
 INTRA_TYPES = [0, 1, 2, 3, 4, 5, 6, 7, 9]      # every type chem_comp_bond can carry (COORDINATION has no value_order there)
@@ -133,10 +134,16 @@ def _template(rng, name, ctx):
             bonds = {k: (int(rng.choice(INTRA_TYPES)) if rng.random() < 0.3 else v) for k, v in bonds.items() if rng.random() < 0.8}
         return atoms, bonds
     k = int(rng.integers(1, 7))
-    nm = [str(x) for x in rng.choice(_AWK_ATOMS, size=k, replace=False)]
+    if rng.random() < 0.35:
+        # names whose concatenations collide ("C1"+"1H" == "C11"+"H", "LG"+"1C" vs "LG1"+"C"): distinct bonds
+        # must stay distinct in the per-residue bond table
+        nm = [str(x) for x in rng.choice(_COLLIDE_ATOMS, size=min(k + 2, len(_COLLIDE_ATOMS)), replace=False)]
+        k = len(nm)
+    else:
+        nm = [str(x) for x in rng.choice(_AWK_ATOMS, size=k, replace=False)]
     atoms = [(a, str(rng.choice(_ELEMS))) for a in nm]
     bonds = {}
-    for _ in range(int(rng.integers(0, 2 * k))):
+    for _ in range(int(rng.integers(0, 3 * k))):
         i, j = int(rng.integers(k)), int(rng.integers(k))
         if i != j:
             bonds[(nm[min(i, j)], nm[max(i, j)])] = int(rng.choice(INTRA_TYPES))
@@ -447,16 +454,22 @@ def case_roundtrip(rng, ctx, want_bonds):
     as_stack = s["coords"].shape[0] > 1 or rng.random() < 0.3
     obj = to_real(s, stack=as_stack)
     extra = sorted(s["opt"])
+    # one argument object shared by all calls, as a caller with a module-level constant would do
+    shared_extra = list(extra)
+    shared_write_extra = [e for e in extra if e == "my_field"]
     results = {}
     for fmt in formats(ctx, s):
         ctx.op("write_read_" + fmt)
-        f = write_read(fmt, obj, [e for e in extra if e == "my_field"], want_bonds)
+        f = write_read(fmt, obj, shared_write_extra, want_bonds)
         if as_stack:
-            got = pdbx.get_structure(f, extra_fields=list(extra), include_bonds=want_bonds)
+            got = pdbx.get_structure(f, extra_fields=shared_extra, include_bonds=want_bonds)
             compare_structure(ctx, got, s, fmt, "%s stack" % fmt, bonds=want_bonds)
         else:
-            got = pdbx.get_structure(f, model=1, extra_fields=list(extra), include_bonds=want_bonds)
+            got = pdbx.get_structure(f, model=1, extra_fields=shared_extra, include_bonds=want_bonds)
             compare_structure(ctx, got, s, fmt, "%s array" % fmt, model=0, bonds=want_bonds)
+        ctx.oracle("arguments_untouched")
+        if shared_extra != extra or shared_write_extra != [e for e in extra if e == "my_field"]:
+            ctx.fail("arguments_untouched", "the extra_fields list passed by the caller was modified: %s -> %s" % (extra, shared_extra))
         results[fmt] = got
     # the text and the binary form decode to the same structure
     ctx.oracle("cross_format")
